@@ -91,7 +91,10 @@ var c06Wraps = []string{"group", "neg", "not", "binl", "binr", "bin-probe", "arr
 
 var c06Probes = []string{"input", "clock", "len"}
 
-var c06Enclosing = []string{"block", "if-then", "if-else", "while", "for", "func", "func-print", "func-var", "elseif", "while-true", "for-nocond", "func-cond", "func-arg", "func-whilecond", "func-rec"}
+var c06CallStyles = []string{"stmt", "print", "var", "cond", "arg", "whilecond", "forinc", "forcond", "index", "objlit", "logical", "retwrap", "higher"}
+
+var c06Enclosing = []string{"block", "if-then", "if-else", "while", "for", "func", "func-print", "func-var", "elseif", "while-true", "for-nocond", "func-cond", "func-arg", "func-whilecond", "func-rec",
+	"func-forinc", "func-forcond", "func-index", "func-objlit", "func-logical", "func-retwrap", "func-higher"}
 
 type skBuilder struct {
 	n int
@@ -292,6 +295,21 @@ func (e *skEmit) emit(n *skNode, ind int) {
 			n.Line = e.add(ind, fmt.Sprintf("h2(h1(%s()), %d);", n.Name, n.Tag))
 		case "whilecond":
 			n.Line = e.add(ind, fmt.Sprintf("%s (%s()) { %s \"cnever%d\"; }", KwWhile, n.Name, KwPrint, n.Tag))
+		case "forinc":
+			n.Line = e.add(ind, fmt.Sprintf("%s (%s k%d = 0; k%d < 1; k%d = k%d + 1 + z0(%s())) { %s \"fi%d\"; }", KwFor, KwVar, n.Tag, n.Tag, n.Tag, n.Tag, n.Name, KwPrint, n.Tag))
+		case "forcond":
+			n.Line = e.add(ind, fmt.Sprintf("%s (%s k%d = 0; k%d < 1 %s z0(%s()) == 0; k%d = k%d + 1) { %s \"fc%d\"; }", KwFor, KwVar, n.Tag, n.Tag, KwAnd, n.Name, n.Tag, n.Tag, KwPrint, n.Tag))
+		case "index":
+			n.Line = e.add(ind, fmt.Sprintf("%s arr0[z0(%s())];", KwPrint, n.Name))
+		case "objlit":
+			n.Line = e.add(ind, fmt.Sprintf("%s ol%d = {a: %s(), b: [%s(), 2]};", KwVar, n.Tag, n.Name, n.Name))
+		case "logical":
+			n.Line = e.add(ind, fmt.Sprintf("%s %s() %s \"lg%d\";", KwPrint, n.Name, KwOr, n.Tag))
+		case "retwrap":
+			e.add(ind, fmt.Sprintf("%s rw%d() { %s %s(); }", KwFun, n.Tag, KwReturn, n.Name))
+			n.Line = e.add(ind, fmt.Sprintf("%s rw%d();", KwPrint, n.Tag))
+		case "higher":
+			n.Line = e.add(ind, fmt.Sprintf("apply(%s);", n.Name))
 		default:
 			n.Line = e.add(ind, n.Name+"();")
 		}
@@ -468,7 +486,25 @@ func (v *skEval) one(n *skNode) {
 		v.funcs[n.Name] = n
 	case "call":
 		fn := v.funcs[n.Name]
+		if n.Style == "forinc" {
+			fmt.Fprintf(&v.out, "fi%d\n", n.Tag)
+		}
 		v.run(fn.Kids)
+		if !v.faulted && n.Style == "objlit" {
+			v.run(fn.Kids) // the literal calls it twice
+		}
+		if !v.faulted {
+			switch n.Style {
+			case "forcond":
+				fmt.Fprintf(&v.out, "fc%d\n", n.Tag)
+			case "index":
+				v.out.WriteString("1\n")
+			case "logical":
+				fmt.Fprintf(&v.out, "lg%d\n", n.Tag)
+			case "retwrap":
+				v.out.WriteString("nil\n")
+			}
+		}
 		if !v.faulted && n.Style == "print" {
 			v.out.WriteString("nil\n")
 		}
@@ -493,6 +529,8 @@ func c06Prelude() []string {
 	return []string{
 		fmt.Sprintf("%s h1(a) { %s a; }", KwFun, KwReturn),
 		fmt.Sprintf("%s h2(a, b) { %s nil; }", KwFun, KwReturn),
+		fmt.Sprintf("%s z0(a) { %s 0; }", KwFun, KwReturn),
+		fmt.Sprintf("%s apply(f) { %s f(); }", KwFun, KwReturn),
 		fmt.Sprintf("%s arr0 = [1, 2, 3];", KwVar),
 		fmt.Sprintf("%s obj0 = {k: 1};", KwVar),
 	}
@@ -559,7 +597,7 @@ func (b *skBuilder) fillOne(s Src, depth int, inFunc bool) []*skNode {
 		out := []*skNode{def}
 		calls := s.Int("ncalls", 0, 2)
 		for i := 0; i < calls; i++ {
-			out = append(out, &skNode{K: "call", Tag: b.tag(), Name: name, Style: Pick(s, "style", []string{"stmt", "print", "var", "cond", "arg", "whilecond"})})
+			out = append(out, &skNode{K: "call", Tag: b.tag(), Name: name, Style: Pick(s, "style", c06CallStyles)})
 		}
 		return out
 	default:
@@ -594,7 +632,10 @@ func (b *skBuilder) wrapIn(s Src, enc string, inner []*skNode, depth int, inFunc
 		return []*skNode{{K: "rec", Tag: t, Name: fmt.Sprintf("rec%d", t), Trips: s.Int("depth", 1, 3), Kids: body}}
 	default: // func, func-print, func-var, func-cond, func-arg, func-whilecond
 		name := fmt.Sprintf("fn%d", t)
-		style := map[string]string{"func": "stmt", "func-print": "print", "func-var": "var", "func-cond": "cond", "func-arg": "arg", "func-whilecond": "whilecond"}[enc]
+		style := "stmt"
+		if enc != "func" {
+			style = strings.TrimPrefix(enc, "func-")
+		}
 		return []*skNode{
 			{K: "funcdef", Tag: t, Name: name, Kids: body},
 			{K: "call", Tag: b.tag(), Name: name, Style: style},
